@@ -25,7 +25,7 @@ cell of R_{j-1}.  Write opt_d(s,e) for the fewest slabs of levels >= d that tile
     and every recursive call satisfies the precondition  e - s < R_{d-1}  (range strictly inside one cell of the previous level).
   specification side (case `lemma/minimality`, pure integer arithmetic, no code): for ANY valid slab inside [s,e)
       (a) level d: it lies inside [L,R)                                   (`level-d-slab-lies-in-the-centre`; hence none if L >= R)
-      (b) level j > d: it lies in one cell of R_{j-1}, cells nest (`cells-nest`), so it lies in one cell of R_d, so entirely in
+      (b) level j > d: it lies in one cell of R_{j-1}, cells nest (`cells-nest/1..4`), so it lies in one cell of R_d, so entirely in
           [s,L), [L,R) or [R,e)                                           (`deeper-slab-lies-in-one-part`)
       (c) level j < d: impossible under the precondition e - s < R_{d-1}  (`no-shallower-slab-fits`)
       (d) L > R: [s,e) lies strictly inside one cell of R_d               (`no-boundary-inside=>...`), L <= R: the partial ranges are
@@ -58,7 +58,7 @@ TRUSTED = [
     "ASSUMED contracts: Tensor.narrow(0, start, length) is the view [start, start+length) of a flat tensor (requires 0 <= start, length >= 0, start+length <= numel), never a copy; Tensor.view([-1, *rest]) requires numel divisible by prod(rest) and keeps the storage; math.prod is the product",
     "recursion by contract: the contract is assumed at recursive call sites (structural induction on order - dimension; dimension concrete)",
     "orders 0..5 enumerated (the property's domain); every extent >= 1 symbolic; nonlinear integer arithmetic decided by z3 (floor division encoded exactly)",
-    "MINIMALITY: the code is proved to follow the optimal recurrence and the arithmetic lemmas (a)-(d) of the lower bound are discharged (z3 with div/mul monotonicity instances; `cells-nest` by cvc5 QF_NIA); the counting / induction step that combines them is a paper argument (module docstring), cross-checked by the bounded tier (exhaustive shapes with numel <= 36/64 against a DP optimum)",
+    "MINIMALITY: the code is proved to follow the optimal recurrence and the arithmetic lemmas (a)-(d) of the lower bound are discharged (z3 with div/mul monotonicity instances; `cells-nest` split into four witness steps); the counting / induction step that combines them is a paper argument (module docstring), cross-checked by the bounded tier (exhaustive shapes with numel <= 36/64 against a DP optimum)",
 ]
 ASSUMPTIONS = ["extents >= 1; 0 <= start <= end <= numel; the shard has end - start elements"]
 EXPLANATION = "one recursion level of the real nested function per (order, dimension) against the contract, for both copies, plus the top-level wrapper and a relational FSDP = HSDP obligation"
@@ -443,8 +443,19 @@ def _lemma_case(case):
         text="a slab k x shape[d+1:] (lo = a R_d, hi = (a+k) R_d) inside [s,e) lies inside [L,R) with L = ceil(s/R_d) R_d, R = floor(e/R_d) R_d; in particular L < R")
     lem("deeper-slab-lies-in-one-part", z3.And(rng, lo / Rd == (hi - 1) / Rd, L <= R), z3.Or(hi <= L, z3.And(L <= lo, hi <= R), R <= lo), nia=True,
         text="a range inside one cell of R_d and inside [s,e) lies entirely in [s,L), [L,R) or [R,e) (L, R are multiples of R_d)")
-    lem("cells-nest", z3.And(Rj >= 1, q >= 1, Rd == q * Rj, lo >= 0, hi > lo, lo / Rj == (hi - 1) / Rj), lo / Rd == (hi - 1) / Rd, plain=True, timeout_s=40,
-        text="R_{j-1} divides R_d for j > d (R_d = q R_{j-1}): a slab of level j, which lies in one cell of R_{j-1}, lies in one cell of R_d")
+    # cells nest: R_{j-1} divides R_d for j > d (R_d = q R_{j-1}), so a range inside one cell of R_{j-1} lies inside one cell of R_d.
+    # The direct statement  lo/Rj = (hi-1)/Rj  =>  lo/(q Rj) = (hi-1)/(q Rj)  is decided by cvc5 in 0.03 .. 60 s (unstable), so it is
+    # split into four stable steps with explicit quotient witnesses; their composition is an instantiation
+    # (c := lo/Rj, C := c/q, r := c%q, K := C, K Rd = (C q) Rj):
+    c, C, r, Cq, K = z3.Ints("c C r Cq K")
+    lem("cells-nest/1:one-cell=>bounds", z3.And(Rj >= 1, lo >= 0, lo < hi, lo / Rj == (hi - 1) / Rj), z3.And((lo / Rj) * Rj <= lo, hi <= (lo / Rj) * Rj + Rj), nia=True,
+        text="a range inside the cell c = lo div R_{j-1}:  c R_{j-1} <= lo < hi <= (c+1) R_{j-1}")
+    lem("cells-nest/2:euclidean-division-of-the-cell-index", z3.And(q >= 1, c >= 0), z3.And(c == (c / q) * q + c % q, 0 <= c % q, c % q < q), nia=True,
+        text="c = C q + r with 0 <= r < q")
+    lem("cells-nest/3:bounds-in-the-coarser-cell", z3.And(Rj >= 1, q >= 1, lo >= 0, c * Rj <= lo, lo < hi, hi <= c * Rj + Rj, c == Cq + r, Cq == C * q, 0 <= r, r < q),
+        z3.And(Cq * Rj <= lo, hi <= Cq * Rj + q * Rj), nia=True, text="then C (q R_{j-1}) <= lo < hi <= (C+1) (q R_{j-1})")
+    lem("cells-nest/4:bounds=>one-cell", z3.And(Rd >= 1, lo >= 0, K * Rd <= lo, lo < hi, hi <= K * Rd + Rd), z3.And(lo / Rd == K, (hi - 1) / Rd == K), nia=True,
+        text="K R_d <= lo < hi <= (K+1) R_d  =>  lo div R_d = (hi-1) div R_d = K")
     lem("no-shallower-slab-fits", z3.And(Rp >= 1, q >= 1, Rj == q * Rp, rng, e - s < Rp, lo == a * Rj, hi == (a + k) * Rj, k >= 1), z3.BoolVal(False), nia=True,
         text="under the recursion precondition e - s < R_{d-1}, no slab of a level j < d (unit R_j = q R_{d-1}) fits inside [s,e)")
     lem("no-boundary-inside=>one-cell-and-no-level-d-slab", z3.And(Rd >= 1, 0 <= s, s < e, L > R), z3.And(s / Rd == (e - 1) / Rd, e - s < Rd), nia=True,
@@ -545,7 +556,10 @@ def native_recovery_check(which, shape, s, e, check_min=True):
         return "empty range must yield no blocks"
     if check_min and len(res) != _dp_min_pieces(tuple(shape), s, e):
         return f"{len(res)} pieces but {_dp_min_pieces(tuple(shape), s, e)} suffice"
-    other = _outer("hsdp" if which == "fsdp" else "fsdp")(shard, torch.Size(shape), s, e)
+    try:
+        other = _outer("hsdp" if which == "fsdp" else "fsdp")(shard, torch.Size(shape), s, e)
+    except BaseException as ex:  # noqa
+        return f"the {'HSDP' if which == 'fsdp' else 'FSDP'} copy raised {type(ex).__name__}: {str(ex)[:120]}"
     if len(other) != len(res) or any(a.shape != b.shape or a.storage_offset() != b.storage_offset() for a, b in zip(res, other)):
         return "FSDP and HSDP copies disagree"
     return None
